@@ -537,10 +537,19 @@ func checkC12(c *Ctx) {
 			ex, ok := an.Strip(x).(*ssa.Extract)
 			return ok && ex.Tuple == ssa.Value(listen) && ex.Index == 1
 		})
-		if len(okIfs) != 1 {
-			R.Unknown("C12-listener-release", "(*Server).Run: listen error test", c.pos(listen), "cannot find the single `err != nil` test on net.Listen's error")
+		// the test whose err == nil side leads to the accept loop
+		var sel []condIf
+		for _, g := range okIfs {
+			v, _ := an.Not(g.If.Cond)
+			_, trueMeansNil, _ := an.NilCheck(v)
+			if s := succOn(g.If, trueMeansNil != g.Neg); s.Dominates(m.accept.Block()) && len(s.Preds) == 1 {
+				sel = append(sel, g)
+			}
+		}
+		if len(sel) == 0 {
+			R.Unknown("C12-listener-release", "(*Server).Run: listen error test", c.pos(listen), "cannot find the `err != nil` test on net.Listen's error that guards the accept loop")
 		} else {
-			g := okIfs[0]
+			g := sel[len(sel)-1]
 			v, _ := an.Not(g.If.Cond)
 			_, trueMeansNil, _ := an.NilCheck(v)
 			okSucc := succOn(g.If, trueMeansNil != g.Neg) // err == nil
